@@ -614,6 +614,37 @@ def rule_append_ordering(ctx, rule):
         ctx.check(payload_ok, rule, f.short, "record-terminator",
                   message="the appended payload is not terminated by a trailing newline (the reader's "
                           "completeness test relies on it)", how="payload = <joined records> + '\\n'")
+        # every newline written terminates a record: either each record carries its own terminator (`"".join(rec + "\n" ...)`), or the
+        # separator form (`"\n".join(recs) + "\n"`) is only reached with a non-empty batch - an empty batch must not write a blank line,
+        # which is newline-terminated but not a record and makes every later reader raise
+        prm = f.params()[1] if len(f.params()) > 1 else "logs"
+
+        def nonempty(e):
+            a = cmp_atom(e)
+            if isinstance(e, ast.Name) and e.id == prm:
+                return True
+            if a and a[0] == f"len({prm})" and a[2] == "0":
+                return True if a[1] in (ast.Gt, ast.NotEq) else (False if a[1] in (ast.Eq, ast.LtE) else None)
+            return None
+        ne_edges = [(t, k, m) for t in g.stmt_nodes() if t.kind == "test" for k, m in t.succ if edges_where(t.expr, nonempty).get(k) is True]
+        for c in wcalls:
+            if not c.args:
+                continue
+            e = resolve(c.args[0], defs)
+            joins = [x for x in ast.walk(e) if isinstance(x, ast.Call) and isinstance(x.func, ast.Attribute) and x.func.attr == "join" and const_str(x.func.value) is not None]
+            per_record = False
+            for j in joins:
+                if const_str(j.func.value) == "" and j.args:
+                    elt = j.args[0].elt if isinstance(j.args[0], (ast.ListComp, ast.GeneratorExp)) else None
+                    if isinstance(elt, ast.BinOp) and isinstance(elt.op, ast.Add) and const_str(elt.right) == "\n":
+                        per_record = True
+            wn = [n for n in W if any(cc is c for cc in n.calls())]
+            guarded = bool(ne_edges) and all(g.dominated_by(n, [], ne_edges) for n in wn)
+            ctx.check(per_record or guarded, rule, f.short, "empty-batch-writes-nothing",
+                      message="append_logs builds its payload as `sep.join(records) + newline` without excluding an empty batch: append_logs([]) writes a bare "
+                              "newline - a complete line that is not a record - and as soon as a real record follows, every read_logs that passes over it raises "
+                              "JSONDecodeError (the Redis backend treats an empty batch as a no-op)",
+                      how="per-record terminator (`''.join(rec + '\\n' for rec in logs)`) or a non-empty test dominating the write", where=where(f, c))
 
 
 def rule_append_only(ctx, rule, program=None, module=MOD, fixture=False):
@@ -810,6 +841,28 @@ def rule_reader_guards(ctx, rule_accept, rule_offsets):
     raises = [n for n in g.stmt_nodes() if n.kind == "stmt" and isinstance(n.ast, ast.Raise) and isinstance(n.ast.exc, ast.Name) and n.ast.exc.id == ev]
     ctx.check(bool(raises), rule_accept, f.short, "pending-error-raised",
               message="a pending decode error is never raised", how="raise of the pending error exists")
+
+    # a line without its newline is the tail of an append in progress (or of a writer that died): it is skipped, and only a FURTHER
+    # line inside the size snapshot turns it into an error - raising at once makes every reader fail while (or after) a record is
+    # being written
+    bad_nl = [(t, k, m) for t in g.stmt_nodes() if t.kind == "test" for k, m in t.succ if edges_where(resolve(t.expr, defs), atom_endswith).get(k) is False]
+    all_raises = [n for n in g.stmt_nodes() if n.kind == "stmt" and isinstance(n.ast, ast.Raise)]
+    if bad_nl:
+        r_ = g.reachable([m for _t, _k, m in bad_nl], avoid_nodes=[head], edge_ok=NORMAL)
+        hit = [n for n in all_raises if n in r_]
+        ctx.check(not hit, rule_accept, f.short, "unterminated-last-line-is-skipped-not-raised",
+                  message="read_logs raises in the very iteration that finds a line without its trailing newline: such a line is always the last one - a record another "
+                          "worker is still writing, or the torn tail left by a writer that died - so every reader (and every fresh JournalStorage) fails although the "
+                          "journal is intact up to there", how="on the `not line.endswith(newline)` edge no raise is reachable before the next iteration",
+                  where=where(f, hit[0].ast) if hit else None)
+    acc_sz0 = [(t, k, m) for t in g.stmt_nodes() if t.kind == "test" for k, m in t.succ if edges_where(resolve(t.expr, defs), atom_neg).get(k) is False]
+    r_ = g.reachable(body0, avoid_nodes=[head], avoid_edges=acc_sz0, edge_ok=NORMAL)
+    hit = [n for n in raises if n in r_]
+    ctx.check(bool(acc_sz0) and not hit, rule_accept, f.short, "pending-error-raised-only-for-a-line-inside-the-snapshot",
+              message="the deferred error of an unterminated line is raised for a following line that lies beyond the file size observed at the start of the read: that "
+                      "'line' is the second chunk of the very record that was unterminated a moment ago (an append in progress), so a read of an intact journal raises",
+              how="the raise of the pending error is dominated, within the iteration, by the `remaining size >= 0` edge",
+              where=where(f, hit[0].ast) if hit else None)
 
     # ---- offset cache (R07.5)
     marks = [n for n in g.stmt_nodes() if n.kind == "stmt" and isinstance(n.ast, ast.Assign)
